@@ -29,7 +29,7 @@ DESIGN_REF = "DESIGN.md section 6 (C12)"
 RULE = (
     "Hypothesis cases: binary input <=5 object / <=4 species leaves, leaf names <species>_<id>, every ancestor of both trees independently unnamed, "
     "freshly named or named like O<k>/S<k> (k<=4), leaf_object_species present or omitted, leaf_syntenies present (<=3 families, possibly "
-    "inconsistent) or omitted, free cost options (hgt possibly float('inf')), one of the seven algorithms.  `reconcile` is run with --solutions any "
+    "inconsistent) or omitted, cost options inside the coherent region spe + 2*sloss <= dup + 2*floss (hgt possibly float('inf'); outside the region `any` can cost more than `all`: known finding F-COHERENCE, witness replayed), one of the seven algorithms, files given by --input/--output or (a quarter of the cases) stdin/stdout.  `reconcile` is run with --solutions any "
     "and all.  Checked: status 0 and >=1 JSON line when a solution exists (status 1 and an empty output file when a super-reconciliation algorithm "
     "gets no syntenies or no root order exists); in every line all node names distinct and non-empty and both trees equal the input trees renamed "
     "by the independent rule; recount of the parsed line == package cost of from_dict(line) == printed 'Minimum cost'; solutions(all) contain "
@@ -37,7 +37,7 @@ RULE = (
     "re-run with `python -m superrec2.cli` as subprocesses and must give the same status and output.  Non-trivial: >=1 unnamed ancestor or an "
     "O#/S#-like given name, and >=3 object leaves; distinct by SHA-1 of the case."
 )
-ASSUMPTIONS = ["binary trees; leaf names follow <species>_<id>", "cost options are Python literals accepted by the tool (float(\"inf\") for infinity)"]
+ASSUMPTIONS = ["binary trees; leaf names follow <species>_<id>", "cost options inside the coherent region (F-COHERENCE outside)", "cost options are Python literals accepted by the tool (float(\"inf\") for infinity)"]
 BUDGET = {"quick": {"random": 1500}, "thorough": {"random": 25000}}
 SUPER = {"base_spfs", "ext_spfs", "base_uspfs", "superdtl"}
 
@@ -45,7 +45,7 @@ SUPER = {"base_spfs", "ext_spfs", "base_uspfs", "superdtl"}
 @st.composite
 def _case(draw):
     algo = draw(st.sampled_from(["thl", "ext_spfs", "superdtl", "lca", "exh", "base_spfs", "base_uspfs"]))
-    case = draw(gen.rec_case(max_obj=5, max_sp=4, costs="free", labelled=True, max_fam=3))
+    case = draw(gen.rec_case(max_obj=5, max_sp=4, costs="coherent", labelled=True, max_fam=3))
     for key, prefix in (("object_tree", "O"), ("species_tree", "S")):
         t = parse_newick(case[key])
         used = set()
@@ -69,6 +69,7 @@ def _case(draw):
         del case["leaf_syntenies"]
     case["_algo"] = algo
     case["_orientation"] = draw(st.sampled_from(["horizontal", "vertical"]))
+    case["_via_std"] = gen.chance(draw, 1, 4)
     return case
 
 
@@ -126,9 +127,11 @@ def check(case):
         labels.append("assignment_inferred")
     if not has_syn:
         labels.append("no_syntenies")
+    if case.get("_via_std"):
+        labels.append("stdin/stdout")
     results = {}
     for policy in ("any", "all"):
-        results[policy] = stubs.cli_reconcile(base, algo, policy)
+        results[policy] = stubs.cli_reconcile(base, algo, policy, via_std=bool(case.get("_via_std")))
     evals = 2
     expect_fail = None
     if algo in SUPER and not has_syn:
